@@ -20,7 +20,7 @@ SHARED = {
     "C03": {"c01": ["R1.1", "R1.2"], "c13": ["R13.2"], "c07": ["R7.5", "R7.8", "R7.7"], "c09": ["R9.4"]},
     "C04": {"c01": ["R1.9", "R1.2"], "c07": ["R7.2", "R7.3"], "c16": ["R16.2", "R16.4"], "c02": ["R2.1"]},
     "C05": {"c07": ["R7.1"], "c12": ["R12.2"], "c01": ["R1.3", "R1.4"], "c06": ["R6.4"], "c02": ["R2.4"], "c16": ["R16.2", "R16.3"]},
-    "C06": {"c02": ["R2.1", "R2.4", "R2.5"], "c05": ["R5.1", "R5.2", "R5.3"], "c01": ["R1.6"], "c08": ["R8.1"], "c16": ["R16.3"]},
+    "C06": {"c02": ["R2.1", "R2.4", "R2.5"], "c05": ["R5.1", "R5.2", "R5.3", "R5.5"], "c01": ["R1.6"], "c08": ["R8.1"], "c16": ["R16.3"]},
     "C07": {"c01": ["R1.2", "R1.6"], "c03": ["R3.2", "R3.3"], "c12": ["R12.2"], "c14": ["R14.1"]},
     "C08": {"c16": ["R16.2", "R16.3"], "c03": ["R3.5", "R3.2"], "c07": ["R7.4"], "c12": ["R12.2"], "c13": ["R13.2"]},
     "C09": {"c16": ["R16.2", "R16.3", "R16.4"], "c03": ["R3.2", "R3.5"], "c13": ["R13.3"], "c08": ["R8.1"], "c01": ["R1.9"]},
@@ -28,12 +28,12 @@ SHARED = {
     "C11": {"c02": ["R2.5"], "c03": ["R3.1"], "c01": ["R1.10", "R1.2"]},
     "C12": {"c07": ["R7.1"], "c05": ["R5.5"]},
     "C13": {"c03": ["R3.1", "R3.2", "R3.4", "R3.5"], "c12": ["R12.4"], "c08": ["R8.3"], "c09": ["R9.2"], "c16": ["R16.2"]},
-    "C14": {"c07": ["R7.5", "R7.7"], "c03": ["R3.1", "R3.6"], "c08": ["R8.1"], "c09": ["R9.4"]},
+    "C14": {"c07": ["R7.5", "R7.7"], "c03": ["R3.1", "R3.6"], "c08": ["R8.1"], "c09": ["R9.4"], "c16": ["R16.2"]},
     "C15": {"c11": ["R11.1", "R11.3"], "c12": ["R12.3"]},
     "C16": {"c01": ["R1.9"], "c09": ["R9.1"], "c05": ["R5.3"]},
     "C17": {"c08": ["R8.4"], "c10": ["R10.3"]},
     "C19": {"c07": ["R7.1"]},
-    "C20": {"c03": ["R3.1"]},
+    "C20": {"c03": ["R3.1"], "c12": ["R12.6"]},
 }
 
 
